@@ -357,10 +357,17 @@ func (m *memFS) ReadDir(name string) ([]ros.DirEntry, error) {
 	}
 	var out []ros.DirEntry
 	for _, q := range m.childrenLocked(p) {
-		out = append(out, m.entryLocked(q))
+		// listed without the info, as the stock localfs does (DirEntryWrapper): whoever wants the info
+		// has to ask the entry, i.e. this file system, for it
+		out = append(out, lazyEntry{m.entryLocked(q)})
 	}
 	return out, nil
 }
+
+// lazyEntry is a directory entry that reports HasInfo() == false although Info() answers.
+type lazyEntry struct{ ros.DirEntry }
+
+func (lazyEntry) HasInfo() bool { return false }
 
 func (m *memFS) WalkDir(root string, fn ros.WalkDirFunc) error {
 	p := norm(root)
